@@ -97,7 +97,7 @@ def render(spec):
 
 
 DB_MEMBERS = ["x.py", "y.py", ".hid.py", "notes.txt", "sub/z.py", "__pycache__/c.py", ".hd/w.py", "bad name.py",
-              "~t.py", "k.py~", "d.py/q", "d.py/q.py", "sub/.s.py", "sub/deep/w.py", "py", "a.PY"]
+              "~t.py", "k.py~", "d.py/q", "d.py/q.py", "sub/.s.py", "sub/deep/w.py", "py", "a.PY", "\u00e9.py"]
 
 
 def mkfile(r, dev):
@@ -140,14 +140,19 @@ def gen_tree(r):
             put(ex, "e.py", mkfile(r, 1), 1)
             if r.random() < .3:
                 put(ex, r.choice(DB_MEMBERS), mkfile(r, 1), 1)
-    # devices: a mount point somewhere (everything below gets another st_dev)
-    if r.random() < .35:
+    # devices: mount points (everything below gets another st_dev), possibly the outer id again further down
+    k = r.random()
+    if k < .3:
         mp = r.choice(dirs[1:])
         setdev(get(tree, mp), r.choice([2, 3]))
-        if r.random() < .3:
-            inner = [d for d in dirs if d.startswith(mp + "/")]
-            if inner:
-                setdev(get(tree, r.choice(inner)), 1)        # same id as the outer file system again
+        inner = [d for d in dirs if d.startswith(mp + "/")]
+        if inner and r.random() < .5:
+            setdev(get(tree, r.choice(inner)), 1)
+    elif k < .5:
+        # every directory flips a coin against its parent: many 1-2-1 patterns along a path
+        for d in sorted(dirs[1:], key=lambda x: x.count("/")):
+            parent = get(tree, d.rpartition("/")[0])
+            setdev(get(tree, d), parent["dev"] if r.random() < .5 else 3 - parent["dev"])
     if r.random() < .1 and ".pyflyby" in tree["dir"]:
         setdev(tree["dir"][".pyflyby"], 5)
     return tree, dirs
@@ -754,7 +759,7 @@ def run(ctx):
     ctx.coverage["rule"] = ("cases from one seeded PRNG: 80% lookup histories (1-4 lookups; cwd, HOME, target and the three "
                             "environment variables change between lookups) in generated trees with .pyflyby files/dirs at several "
                             "levels, hidden/__pycache__/unsafe entries, device boundaries; 15% in-memory compositions (+ __or__); "
-                            "5% _find_etc_dirs trees; thorough adds all sequences up to length 4 over 5 queries on 3 trees; "
+                            "5% _find_etc_dirs trees; thorough adds all sequences up to length 4 over 5 queries on 2 trees; "
                             "non-trivial = a history with a cache hit and a non-empty database (compositions: with a forget list); "
                             "distinct by hash of the case")
     ctx.assumptions += [
@@ -769,7 +774,7 @@ def run(ctx):
     ctx.notes["trusted_base"] = ["posixpath.normpath/join (used by the oracle and by the real code) agree with Sys/DBPath.abspath on the generated strings (tied by the correspondence)"]
     cases = cm.load_corpus("C12") + gen_cases(ctx, n)
     if not ctx.quick:
-        cases += gen_exhaustive(ctx, 3)
+        cases += gen_exhaustive(ctx, 2)
     impl = cm.run_impl("c12", "impl_case", cases, timeout_case=120)
     exprs, index = model_exprs(cases, impl)
     model = cm.coq_eval_json(REQ, exprs, shard=40)
